@@ -13,7 +13,14 @@ import (
 )
 
 func (c *FnCtx) call(ins ssa.Instruction, cc *ssa.CallCommon, res ssa.Value) {
+	var pre map[string]string
+	if len(c.protected) > 0 {
+		pre = copyState(c.st)
+	}
 	r := c.callEffects(cc, res, ins.Pos(), false)
+	if pre != nil {
+		c.restoreProtected(pre)
+	}
 	if res != nil {
 		if r.GT == nil {
 			r.GT = res.Type()
